@@ -419,7 +419,12 @@ def add_inputs(rng, spec, fnames, mounts, feat, extra_mounts=()):
                     own = slug_of(t, pkg, m).split(':')[-1]
                     if own not in bares and not (set(bares) & explicit_bares):
                         import re as _re
-                        t['inputs'].append({'form': 'pattern_all' if use_all else 'pattern', 'ref': '(.*:)?(' + '|'.join(_re.escape(b) for b in bares) + ')'})
+                        if len(bares) >= 2 and rng.random() < 0.5:
+                            # two pattern entries on one task
+                            for b in bares:
+                                t['inputs'].append({'form': 'pattern_all' if use_all else 'pattern', 'ref': '(.*:)?' + _re.escape(b)})
+                        else:
+                            t['inputs'].append({'form': 'pattern_all' if use_all else 'pattern', 'ref': '(.*:)?(' + '|'.join(_re.escape(b) for b in bares) + ')'})
                         t['inputs'].sort(key=lambda i: (bool(i.get('in_parameters')), i['form'] in ('pattern', 'pattern_all')))
             # optional input that is really absent
             if feat['optional_inputs'] and rng.random() < 0.1:
@@ -644,7 +649,15 @@ def inject_error(rng, spec, kind):
                             continue
                         for upd in spec['files'][u['file']]['parts'].values():
                             upd['tasks'] = list(upd.get('tasks', [])) + [f'{mp}.{t["cls"]}']
-                        return f'{t["cls"]} declared by {fname} and by {u["file"]} in the same namespace'
+                        ufile = u['file']
+                        if rng.random() < 0.5 and ufile in spec['fnames']:
+                            # the two conflicting configs have the same file name (in different directories): still two configs
+                            from .rewrite import _rename_file
+                            same = 'elsewhere/' + fname.split('/')[-1].rsplit('.', 1)[0] + '.' + ufile.rsplit('.', 1)[1]
+                            if same not in spec['files']:
+                                _rename_file(spec, ufile, same)
+                                ufile = same
+                        return f'{t["cls"]} declared by {fname} and by {ufile} in the same namespace'
         return None
     raise ValueError(kind)
 
